@@ -335,7 +335,7 @@ fn receivable(role: Role, v: V, idw: usize) -> BoxedStrategy<AP> {
 
 fn item(role: Role, v: V, idw: usize, big: bool) -> BoxedStrategy<Item> {
     let sized = if big {
-        proptest::sample::select(vec![0u32, 1, 127, 128, 16383, 16384, 2_097_151, 2_097_152]).boxed()
+        proptest::sample::select(vec![0u32, 1, 127, 128, 129, 16383, 16384, 16383, 16384, 127, 128, 2_097_151, 2_097_152]).boxed()
     } else {
         proptest::sample::select(vec![0u32, 1, 127, 128, 129, 16383, 16384]).boxed()
     };
@@ -440,7 +440,7 @@ pub fn run(ctx: &Ctx) -> Report {
          non-trivial = >= 2 frames and a cut strictly inside a header/Remaining Length; distinct by (stream, cuts)",
     );
     let big = ctx.tier == Tier::Thorough;
-    let n = ctx.tier.pick(150_000, 2_000_000);
+    let n = ctx.tier.pick(150_000, 250_000);
     let (st, v) = search(ctx, "c09.random", n, || case_strategy(big), test);
     rep.absorb("random_streams_and_partitions", st, v, false);
     let shorts = short_streams(ctx.tier.pick(1000, 10_000) as usize, ctx.seed);
